@@ -35,6 +35,7 @@ type World struct {
 	strLits map[string]string
 
 	appDecls      map[string]string
+	namedTypes    []types.Type
 	appOrder      []string
 
 	errTemplates  []errTemplate
@@ -491,6 +492,9 @@ func (w *World) FuncsWithContracts() []*ssa.Function {
 		if fn.Blocks == nil {
 			continue
 		}
+		if fc := w.FuncC[o]; fc.Inline && len(fc.Requires)+len(fc.Ensures) == 0 && usesRecover(fn) {
+			continue // a deferred recover helper: checked in the context of each function that defers it
+		}
 		if fn.Synthetic != "" && !strings.Contains(fn.Synthetic, "instance of") {
 			continue
 		}
@@ -574,5 +578,42 @@ func (w *World) AllModuleFuncs() []*ssa.Function {
 		out = append(out, fn)
 	}
 	sort.Slice(out, func(i, j int) bool { return fnDisplay(out[i]) < fnDisplay(out[j]) })
+	return out
+}
+
+func usesRecover(fn *ssa.Function) bool {
+	for _, b := range fn.Blocks {
+		for _, ins := range b.Instrs {
+			if c, ok := ins.(*ssa.Call); ok {
+				if bi, ok := c.Call.Value.(*ssa.Builtin); ok && bi.Name() == "recover" {
+					return true
+				}
+			}
+		}
+	}
+	return false
+}
+
+func (w *World) inModule(path string) bool {
+	return strings.HasPrefix(path, modulePrefix)
+}
+
+// allNamedTypes lists every non-generic named type declared at package level in the loaded program.
+func (w *World) allNamedTypes() []types.Type {
+	if w.namedTypes != nil {
+		return w.namedTypes
+	}
+	var out []types.Type
+	for _, p := range w.Prog.AllPackages() {
+		for _, m := range p.Members {
+			if t, ok := m.(*ssa.Type); ok {
+				if nt, ok := t.Type().(*types.Named); ok && nt.TypeParams().Len() == 0 {
+					out = append(out, nt)
+				}
+			}
+		}
+	}
+	sort.Slice(out, func(i, j int) bool { return typeName(out[i]) < typeName(out[j]) })
+	w.namedTypes = out
 	return out
 }
